@@ -177,6 +177,9 @@ func (m *Machine) intercept(fn *ssa.Function, args []Val, caller *frame, site ss
 			}
 			return TupleV{SliceV{A: a, Len: len(bs), Cap: len(bs)}, Iface{}}
 		}
+	case "(*strings.Builder).WriteString", "(*strings.Builder).WriteByte", "(*strings.Builder).WriteRune", "(*strings.Builder).Write",
+		"(*strings.Builder).String", "(*strings.Builder).Len", "(*strings.Builder).Reset", "(*strings.Builder).Grow", "(*strings.Builder).Cap":
+		return func() Val { return m.stringsBuilderOp(fn.Name(), args) }
 	case "(*sync.Pool).Get", "(*sync.Pool).Put":
 		return func() Val { return m.syncPoolOp(fn.Name(), args, caller) }
 	case "(*sync.Once).Do":
@@ -1575,5 +1578,70 @@ func (m *Machine) syncPoolOp(op string, args []Val, caller *frame) Val {
 		}
 		return Iface{}
 	}
+	return nil
+}
+
+// stringsBuilderOp models strings.Builder (whose implementation uses unsafe) as
+// a string accumulated in a side table keyed by the receiver.
+func (m *Machine) stringsBuilderOp(op string, args []Val) Val {
+	p := args[0].(Ptr)
+	if p.C == nil {
+		m.rtPanic("nil *strings.Builder")
+	}
+	if m.builders == nil {
+		m.builders = map[*Cell]*StrV{}
+	}
+	cur := m.builders[p.C]
+	if cur == nil {
+		cur = &StrV{}
+	}
+	write := func(s *StrV) {
+		if p.C.O != nil {
+			m.noteWrite(p.C.O, "strings.Builder write")
+		}
+		m.builders[p.C] = strConcat(cur, s)
+	}
+	switch op {
+	case "WriteString":
+		s := args[1].(*StrV)
+		write(s)
+		return TupleV{bv64(s.Len()), Iface{}}
+	case "WriteByte":
+		write(strFromBytes([]*Term{args[1].(*Term)}, false))
+		return Iface{}
+	case "WriteRune":
+		r := args[1].(*Term)
+		if !r.IsConst() {
+			if m.branch(Cmp("bvult", r, BV(32, 0x80)), "WriteRune: ascii") {
+				write(strFromBytes([]*Term{Extract(r, 7, 0)}, false))
+				return TupleV{bv64(1), Iface{}}
+			}
+			m.unmodelled("strings.Builder.WriteRune of a symbolic non-ASCII rune")
+		}
+		s := string(rune(int32(uint32(r.C))))
+		write(mkStr(s))
+		return TupleV{bv64(len(s)), Iface{}}
+	case "Write":
+		sl := args[1].(SliceV)
+		bs := make([]*Term, sl.Len)
+		for i := range bs {
+			bs[i] = sl.A.E[sl.Off+i].V.(*Term)
+		}
+		write(strFromBytes(bs, false))
+		return TupleV{bv64(sl.Len), Iface{}}
+	case "String":
+		return cur
+	case "Len", "Cap":
+		return bv64(cur.Len())
+	case "Reset":
+		if p.C.O != nil {
+			m.noteWrite(p.C.O, "strings.Builder reset")
+		}
+		m.builders[p.C] = &StrV{}
+		return nil
+	case "Grow":
+		return nil
+	}
+	m.unmodelled("strings.Builder.%s", op)
 	return nil
 }
